@@ -18,7 +18,7 @@ import itertools
 
 from mc import backends, compare, core, diff, explorer, inputs, menus
 from mc import hist as H
-from mc.hist import C, V, O, M, F
+from mc.hist import C, V, O, U, M, F
 
 PROP = "C04"
 
@@ -88,8 +88,10 @@ def dag_menu(cols, roles, depth, hist, rich=True):
         # windowed extends and plain extends: windowed-then-plain is the SQL-level merge
         items.append({"op": "extend", "ops": {z: M("sum", C(A))}, "partition_by": [K[0]] if K else 1})
         items.append({"op": "extend", "ops": {z: O("+", C(A), V(1))}})
+        # an ordered window right after an extend that re-defines its order column (in an order-reversing way)
+        items.append({"op": "extend", "ops": {z: F("_row_number")}, "partition_by": [K[0]] if K else 1, "order_by": [A], "reverse": []})
+        items.append({"op": "extend", "ops": {A: U("-", C(A))}})
         if depth == 0 or rich:
-            items.append({"op": "extend", "ops": {z: F("_row_number")}, "partition_by": [K[0]] if K else 1, "order_by": [A], "reverse": []})
             items.append({"op": "extend", "ops": {z: M("max", C(A))}, "partition_by": 1})
             items.append({"op": "extend", "ops": {A: O("*", C(A), V(2))}})
             if B:
@@ -121,6 +123,11 @@ def dag_menu(cols, roles, depth, hist, rich=True):
         items.append({"op": "natural_join", "b": {"table": hist["table"], "steps": list(hist["steps"])}, "on": [k], "jointype": "LEFT"})
         items.append({"op": "concat_rows", "b": {"prefix": depth}, "id_column": "src", "a_name": "a", "b_name": "b"})
         items.append({"op": "concat_rows", "b": {"prefix": depth}, "id_column": None})
+        last = hist["steps"][-1] if hist["steps"] else None
+        if last is not None and last["op"] == "select_columns" and len(last["columns"]) == 2:
+            # the same earlier prefix narrowed to the same columns in the other order, stacked by position
+            rev = {"op": "select_columns", "columns": list(reversed(last["columns"]))}
+            items.append({"op": "concat_rows", "b": {"prefix": depth - 1, "steps": [rev]}, "id_column": None})
         # a member of the union that carries its own ORDER BY / LIMIT (inline without WITH)
         lim = {"op": "order_rows", "columns": [A], "reverse": [], "limit": 1}
         items.append({"op": "concat_rows", "b": {"prefix": depth, "steps": [lim]}, "id_column": None})
